@@ -54,13 +54,13 @@ def gen_history(rnd, tkey, kind, maxlen=10):
         ls = leaves_of(TREE[tkey])
         rep_names = [n for n in a if ls.count(n) > 1]
         sub = []
-        for _ in range(rnd.choice([1, 2, 2, 3])):
-            n = rnd.choice(rep_names) if rep_names and rnd.random() < 0.5 else rnd.choice(a)
+        for _ in range(rnd.choice([1, 2, 2, 2, 3])):
+            n = rnd.choice(rep_names) if rep_names and rnd.random() < 0.7 else rnd.choice(a)
             if n not in sub:
                 sub.append(n)
-        for _ in range(rnd.randint(3, 12)):
+        for _ in range(rnd.randint(3, 14)):
             r = rnd.random()
-            if live and r < 0.25:
+            if live and r < 0.2:
                 i, n = rnd.choice(live)
                 hist.append(('rm', i))
                 live.remove((i, n))
